@@ -63,12 +63,23 @@ type phoutAggregator struct {
 
 func (a *phoutAggregator) Report(s *Sample) { a.sink <- s }
 
-func (a *phoutAggregator) Run(ctx context.Context, _ core.AggregatorDeps) error {
+func (a *phoutAggregator) Run(ctx context.Context, _ core.AggregatorDeps) (err error) {
 	shouldFlush := time.NewTicker(1 * time.Second)
 	defer func() {
-		_ = a.writer.Flush()
-		_ = a.file.Close()
+		// A failed flush or close means that result lines are lost: Run must not return nil then.
+		// (The buffered writer keeps its first error, so a failed periodic flush shows up here as well.)
+		flushErr := a.writer.Flush()
+		closeErr := a.file.Close()
 		shouldFlush.Stop()
+		if errors.Is(closeErr, os.ErrClosed) {
+			closeErr = nil // os.Stdout shared by several pools
+		}
+		if err == nil {
+			err = errors.WithMessage(flushErr, "phout flush failed")
+		}
+		if err == nil {
+			err = errors.WithMessage(closeErr, "phout output file close failed")
+		}
 	}()
 loop:
 	for {
